@@ -1,6 +1,7 @@
 package chainkit
 
 import (
+	"github.com/nspcc-dev/neo-go/pkg/smartcontract/manifest"
 	"errors"
 	"fmt"
 	"math/big"
@@ -61,6 +62,7 @@ type Action struct {
 	GasAdj int64    `json:"gasadj,omitempty"` // added to the measured system fee (negative: run out of gas)
 	Scope  int      `json:"scope,omitempty"`  // 0 Global, 1 CalledByEntry, 2 None
 	Inner  *Action  `json:"inner,omitempty"`  // notary_assisted: the action whose script the transaction carries
+	Fail   bool     `json:"fail,omitempty"`   // the script throws after the action is done: everything it did must be discarded
 }
 
 // BlockSpec is one block of a history.
@@ -284,8 +286,8 @@ func (b *Builder) MakeScript(a Action) ([]byte, []int, error) {
 		call(nativehashes.Notary, "lockDepositUntil", from, int64(b.N.BC.BlockHeight())+int64(a.A))
 	case "notary_withdraw": // A = receiver party
 		call(nativehashes.Notary, "withdraw", from, b.PartyHash(a.A))
-	case "deploy": // A = variant selector (0..2), S = name suffix
-		c := KContract(fmt.Sprintf("K%d%s", a.A, a.S), a.A)
+	case "deploy": // A = variant selector (0..2), S = name suffix, B = permission profile (PermProfile)
+		c := KContract(fmt.Sprintf("K%d%s", a.A, a.S), a.A, PermProfile(a.B)...)
 		call(nativehashes.ContractManagement, "deploy", c.NEF, c.Manifest)
 	case "invoke": // A = contract index, S = method, K/V/N arguments by method
 		if len(b.Deployed) == 0 {
@@ -326,7 +328,7 @@ func (b *Builder) MakeScript(a Action) ([]byte, []int, error) {
 			emit.Opcodes(w.BinWriter, opcode.DROP)
 			call(d.Hash, "put", append([]byte("kept"), a.K...), []byte(a.V))
 		case "update": // update to another variant
-			c := KContract(d.C.Name, int(a.N%3))
+			c := KContract(d.C.Name, int(a.N%3), PermProfile(a.B)...) // B = permission profile of the new manifest
 			call(d.Hash, "update", c.NEF, c.Manifest)
 		default:
 			return nil, nil, fmt.Errorf("unknown method %q", a.S)
@@ -367,6 +369,10 @@ func (b *Builder) MakeScript(a Action) ([]byte, []int, error) {
 		emit.Syscall(w.BinWriter, interopnames.SystemRuntimeGetTime)
 	default:
 		return nil, nil, fmt.Errorf("unknown action kind %q", a.Kind)
+	}
+	if a.Fail {
+		emit.String(w.BinWriter, "generated throw after the action")
+		emit.Opcodes(w.BinWriter, opcode.THROW)
 	}
 	if w.Err != nil {
 		return nil, nil, w.Err
@@ -759,3 +765,28 @@ func (b *Builder) Bootstrap() ([][]byte, error) {
 }
 
 var _ = big.NewInt
+
+// PermProfile is the set of manifest permissions a generated contract is deployed (or updated) with:
+// 0 wildcard (may call everything), 1 any contract but an explicitly EMPTY method list (may call nothing),
+// 2 any contract, methods put and putFail only, 3 no permission at all. Calls of non-safe methods the profile
+// does not allow fault ("disallowed method call") on every node, restarted or not.
+func PermProfile(p int) []asm.ManifestOpt {
+	p = ((p % 4) + 4) % 4
+	if p == 0 {
+		return nil
+	}
+	return []asm.ManifestOpt{func(m *manifest.Manifest) {
+		switch p {
+		case 1:
+			mp := manifest.NewPermission(manifest.PermissionWildcard)
+			mp.Methods.Value = []string{}
+			m.Permissions = []manifest.Permission{*mp}
+		case 2:
+			mp := manifest.NewPermission(manifest.PermissionWildcard)
+			mp.Methods.Value = []string{"put", "putFail"}
+			m.Permissions = []manifest.Permission{*mp}
+		case 3:
+			m.Permissions = []manifest.Permission{}
+		}
+	}}
+}
